@@ -8,6 +8,7 @@ import (
 	"go/ast"
 	"go/token"
 	"go/types"
+	"regexp"
 	"strings"
 
 	"golang.org/x/tools/go/types/typeutil"
@@ -308,6 +309,7 @@ func checkC18(c *Check) {
 	// (6)
 	checkNoSharedState(c, "O-C18.6")
 	parserExhaustsInput(c)
+	parserFailsOnBadRead(c)
 }
 
 // parserExhaustsInput: O-C18.4. The parser of the freshest-CRL extension returns
@@ -373,6 +375,38 @@ func parserExhaustsInput(c *Check) {
 		c.add("O-C18.4", "distribution-point parser reads the whole extension", "the outer loop of "+fs.Obj.Name()+" is left only by its own condition or by an error return (a break would drop the locations that follow)", len(bad) == 0, c.P.pos(fs.Decl.Pos()), bad...)
 	}
 	c.floor("distribution-point parsers", 1, n)
+}
+
+var outArgSuffix = regexp.MustCompile(`![0-9]+\)$`)
+
+// parserFailsOnBadRead (O-C18.4): in the distribution-point parser a DER read
+// that failed (ReadASN1*/ReadOptionalASN1* returned false) is never followed
+// by a successful return: malformed bytes are an error, not the end of the list.
+func parserFailsOnBadRead(c *Check) {
+	n := 0
+	for _, fs := range c.P.productFuncs() {
+		if !strings.HasSuffix(fs.Pkg.PkgPath, "/revocation/crl") {
+			continue
+		}
+		sig := fs.Obj.Type().(*types.Signature)
+		if sig.Params().Len() != 1 || sig.Results().Len() != 2 || c.P.typeStr(sig.Params().At(0).Type()) != "[]byte" || c.P.typeStr(sig.Results().At(0).Type()) != "[]string" {
+			continue
+		}
+		pg := c.pgOf(c.P.abbrev(fs.Obj.FullName()))
+		if pg == nil {
+			continue
+		}
+		n++
+		failed := LP{Desc: "a DER read failed", F: func(l Label) bool {
+			// the result of the read itself, not one of its out-parameters (…!2)
+			return l.Kind == "atom" && !l.Pol && !l.Implied && strings.HasPrefix(l.Key, "Truth((*golang.org/x/crypto/cryptobyte.String).Read") && !outArgSuffix.MatchString(l.Key)
+		}}
+		c.floor(fs.Obj.Name()+" failed-read edges", 3, len(edgeSources(pg, failed)))
+		okRets := returnsWhere(pg, func(s *PState) bool { return retNilErr(s, 1) })
+		c.floor(fs.Obj.Name()+" successful returns", 1, len(okRets))
+		c.noPathFrom(pg, "O-C18.4", fs.Obj.Name()+": a failed DER read is an error", "after a DER read failed the parser does not return successfully (with the locations read so far, or none)", failed, okRets, nil)
+	}
+	c.floor("distribution-point parsers (read discipline)", 1, n)
 }
 
 // localOnlyReturnedOrTested: every use of the local error variable v is an
